@@ -27,14 +27,14 @@ func (C19) Describe() CheckInfo {
 	}
 }
 
-var c19Variants = []string{"read-fault", "write-fault", "devfull", "open-fault", "decode-fail", "eval-fail", "complete", "exit-status", "null-input", "auto-format", "encoder-domain", "nul-output", "malformed", "usage", "from-file", "split-output", "root-command"}
+var c19Variants = []string{"read-fault", "write-fault", "devfull", "open-fault", "decode-fail", "eval-fail", "complete", "exit-status", "null-input", "auto-format", "encoder-domain", "nul-output", "malformed", "usage", "from-file", "split-output", "root-command", "nested-fail"}
 
 var badYAML = []string{"a: [1, 2\n", "\tx: 1\n", "a: b: c\n", "a: \"unterminated\n", "- x\ny: 1\n", "a: *nope\n", "{a: 1\n", "a: 1\n  b: 2\n c: 3\n", "a: !!int notanint\nb: [\n"}
 
 func (C19) Generate(c *Ctx, r *Rand, index int) *Scenario {
 	sc := &Scenario{Kind: "proc", Meta: map[string]any{}}
 	rs := r.Fork("shape")
-	variant := c19Variants[rs.Weighted([]int{16, 14, 3, 12, 9, 8, 8, 10, 4, 6, 5, 5, 10, 4, 4, 4, 4})]
+	variant := c19Variants[rs.Weighted([]int{16, 14, 3, 12, 9, 8, 8, 10, 4, 6, 5, 5, 10, 4, 4, 4, 4, 5})]
 	sc.Meta["variant"] = variant
 	if variant == "split-output" {
 		ss := GenSplitScenario(r, "C19")
@@ -319,7 +319,7 @@ func (C19) Generate(c *Ctx, r *Rand, index int) *Scenario {
 		sc.Meta["keep_flags"] = []any{"ea"}
 	case "malformed":
 		// a record that an independent reader of the format rejects, at some position of some file
-		format = Pick(rs, []string{"csv", "tsv", "json", "toml", "lua", "xml", "xml"})
+		format = Pick(rs, []string{"csv", "tsv", "json", "toml", "lua", "xml", "xml", "base64", "uri"})
 		nf := rs.Range(1, 3)
 		bad := rs.Intn(nf)
 		ext := FormatByName(format).Ext
@@ -363,6 +363,34 @@ func (C19) Generate(c *Ctx, r *Rand, index int) *Scenario {
 		sc.Meta["expr"] = "."
 		sc.Meta["freeze_data"] = true
 		sc.Meta["keep_flags"] = []any{"-i", "-s", "-n", "ea", "--nope", "-o=foo", "-p=foo", "--front-matter=process", "--from-file=missing.yq", "-I", "--split-exp-file=missing.yq", "--xml-attribute-prefix", "--csv-separator=ab", "-o=sh", "-p=shell", "-I-2"}
+	case "nested-fail":
+		// a failure deep inside an operator that iterates, on an element that is not the last one:
+		// whatever wraps it must pass the failure on
+		sc.Files = GenMultiFiles(r.Fork("files"), opts)
+		bad, conv := "\"x\"", "to_number"
+		switch rs.Intn(3) {
+		case 1:
+			bad, conv = "\"{bad\"", "from_json"
+		case 2:
+			bad, conv = "\"!!!\"", "@base64d"
+		}
+		good := map[string]string{"to_number": "\"5\"", "from_json": "\"[1]\"", "@base64d": "\"aGk=\""}[conv]
+		g := Pick(rs, []string{
+			"[{\"n\":" + bad + "},{\"n\":" + good + "}]",
+			"[{\"n\":" + bad + "},{\"n\":" + good + "},{\"n\":" + good + "}]",
+			"[{\"n\":" + good + "},{\"n\":" + bad + "},{\"n\":" + good + "}]",
+		})
+		f := ".n | " + conv
+		ctx := Pick(rs, []string{
+			"G | with(.[]; .n |= C)", "G | map(F)", "G | .[] |= (F)", "G | .[] | F", "G | map_values(F)", "[G[] | F]", "G | sort_by(F)", "G | \"v: \\(.[] | F)\"",
+			"G | any_c((F) == 1)", "G | all_c((F) != 1)", "G | .[] | select((F) == 1)", "G | with_entries(.value |= (F))", "G | .[] as $i ireduce (0; [$i | F])", "G | .[] as $i | ($i | F)",
+			"G | group_by(F)", "G | unique_by(F)", "G | (.[] | .n) |= C", "G | to_entries | map(.value | F)", "G | .. | select(tag == \"!!str\") | C", "G | del(.[] | select((F) == 1))",
+			"G | .[] | with(.n; . |= C)", "G | .[] | (F) as $v | $v", ".new = (G | map(F))", ". as $d | G | map(F)", "G | map(F) | length", "{\"k\": (G | map(F))}", "(G | map(F)), 1", "1, (G | map(F))",
+		})
+		expr := strings.NewReplacer("G", g, "F", f, "C", conv).Replace(ctx)
+		addOut()
+		finish(expr)
+		sc.Meta["freeze_data"] = true
 	case "root-command":
 		// flags only, input on stdin: the root command itself evaluates `.`
 		g := &DocGen{R: r.Fork("doc"), Plain: true}
@@ -549,6 +577,10 @@ func (C19) Judge(c *Ctx, sc *Scenario) []Violation {
 		c.Count("variant." + variant)
 	}
 	if out.TimedOut || out.Exit == ExitBudget || out.Exit == ExitPoll {
+		_, inNames := c19Split(sc)
+		if ExplainedByCrossProduct(c, sc, inNames) {
+			return vs // eval-all over three or more documents: results multiply, see crossproduct.go
+		}
 		add("O19.0", "hang", "run did not terminate")
 		return vs
 	}
@@ -936,6 +968,11 @@ func (C19) Judge(c *Ctx, sc *Scenario) []Violation {
 			if ref.Exit == 0 && !bytes.HasPrefix(out.Stdout, ref.Stdout) {
 				add("O19.4", "stdout malformed in="+format, fmt.Sprintf("the results of the inputs before the malformed one are missing: got %q want prefix %q", clip(out.Stdout, 300), clip(ref.Stdout, 300)))
 			}
+		}
+	case "nested-fail":
+		nontrivial = true
+		if mustFail("O19.4", "nested-fail") && len(bytes.TrimSpace(out.Stdout)) != 0 {
+			add("O19.4", "stdout nested-fail", fmt.Sprintf("the expression fails on every document, yet results were printed: %q", clip(out.Stdout, 200)))
 		}
 	case "usage":
 		nontrivial = true
